@@ -70,6 +70,14 @@ CLAIMED = {
             "Generated histories of object/service creation, destruction and same-UUID re-creation interleaved with discoverer start/restart (all four entry kinds, partial service sets, current-only and continuous), lifetimes, find_object/wait_for_object and event consumption under generated schedules; at quiescence each discoverer's view and emitted created/destroyed sequence are compared with a model of the bus state, lifetimes must have ended iff their scope ended, found/waited objects must have existed during the wait.",
             "The bus state is taken from the harness's own record of acknowledged create/destroy operations; convergence is judged only at simulator quiescence after all notifications were consumed.",
             "model-based property testing: generated histories x schedules, convergence oracle at quiescence", "5 C19"),
+    "C16": ("schema", "exploration",
+            "Batches of 16 generated schema groups (grammar-directed: all built-in types, nested generics, arrays, optional/required fields, fallbacks, newtypes, inline types, imports, raw identifiers; each with a newer version) plus the repository's own codegen test schemas are run through Parser + Generator::rust, compiled ONCE per batch into a scratch crate against the current tree (class compile: one verdict per module) and served by an oracle process; generated values built from the schema AST by a restated wire contract (either container encoding, unknown fields/variants, shuffled order) must decode and re-encode to the same meaning, systematic non-conforming mutations (required field dropped, wrong kind, unknown variant without fallback, array length +-1) must be rejected, and values of the newer schema must survive a pass through the older type with fallback.",
+            "Trusts harness/schema/src/contract.rs (cross-checked against codegen/src/rust/test.rs and run on upstream's test schemas in every batch) and refcodec for meaning; array lengths <= 8; five identifiers rustc cannot write raw are excluded and counted; one rustc version.",
+            "property-based testing over generated schemas and values: compile-and-run differential against a restated wire contract; metamorphic old/new schema pairs", "5 C16"),
+    "C20": ("schema", "exploration",
+            "(graph, in-process) generated layout graphs incl. recursion and mutual recursion built with the public IR builders: neutral edits (docs, declaration order, reference visiting order, hash seeds) keep every id, a single semantic edit changes exactly the ids of the edited type and its transitive referrers, every Introspection record round-trips with resolvable references. (typeid, compiled; batch shared with C16) ids reported by generated code (derive macro, service! macro) equal ids computed from an IR hand-built from the schema model; permuted-declaration and doc-edited variants give identical ids; one variant per semantic edit class changes the edited type's id, its referrers' ids (also two hops away) and no unrelated id.",
+            "The IR builders are taken as the statement of the wire-relevant description; renames of functions/events are applied to items without inline types.",
+            "property-based testing: metamorphic relations (neutral vs semantic edits) over generated layouts, differential generated-code vs hand-built IR", "5 C20"),
     "C17": ("schema", "exploration",
             "Token soups, statement soups, token/character/line mutations of all 83 repository schemas (incl. a systematic operator x file class), generated valid schemas with markdown-adversarial docs, and multi-schema parses with partial import sets; under catch_unwind: parse, render every diagnostic under several renderer settings, format when permitted, a second complete run must give the same diagnostics (sorted multiset), code generation with all option combinations when there are no errors, and a sampled check that the aldrin-gen CLI (built from the current tree) refuses schemas with errors.",
             "Each case runs under a generated HashMap seed (getrandom shim), so hash-order dependent diagnostics are explored and replay exactly; diagnostics are compared as sorted multisets of rendered strings.",
@@ -107,12 +115,12 @@ def main():
             "guard": "cargo feature `verif-hooks` of aldrin-broker (off by default)",
             "enable": "the harness crates depend on aldrin-broker with features = [\"statistics\", \"verif-hooks\"]",
             "baseline_off_cmd": "cd /repo && cargo test --workspace --no-fail-fast --offline",
-            "source_commits": ["7a880ef"],
+            "source_commits": ["7a880ef", "1917976"],
             "add_only": True,
         },
         "engines": [
             {"name": "codec", "path": "harness/codec", "serves_properties": ["C01", "C07", "C08", "C13", "C14"], "kind_free_text": "proptest-driven tape generators + independent reference codec (refcodec) + differential/round-trip oracles; worker subprocesses with crash attribution"},
-            {"name": "schema", "path": "harness/schema", "serves_properties": ["C16", "C17", "C18", "C20"], "kind_free_text": "tape-driven schema model + layout printer (grammar-directed), parser/formatter/renderer/codegen front end under catch_unwind with deterministic hash seeds"},
+            {"name": "schema", "path": "harness/schema", "serves_properties": ["C16", "C17", "C18", "C20"], "kind_free_text": "tape-driven schema model + layout printer (grammar-directed), parser/formatter/renderer/codegen front end under catch_unwind with deterministic hash seeds; gencrate: compile-and-run pipeline for generated Rust with an oracle server process; intro: in-process introspection graphs"},
             {"name": "api", "path": "harness/api", "serves_properties": ["C06", "C15", "C19"], "kind_free_text": "apiprog: tape-decoded programs over the public aldrin client API, interpreted by real clients and a real broker on simbus with scripted/faulty transports; quiescence oracles"},
             {"name": "bus", "path": "harness/bus", "serves_properties": ["C02", "C03", "C04", "C05", "C09", "C10", "C11", "C12"], "kind_free_text": "simbus (deterministic single-threaded executor + getrandom shim) running the real broker with raw protocol peers, lock-step against busmodel (reference model of the protocol)"},
         ],
